@@ -1176,6 +1176,77 @@ class Explorer:
         self._apply(st, fr, b, t, pred, (('refval', payload),), after)
         return True
 
+    def _iter_items(self, v, depth=0):
+        """the kinds of item an iterator value can yield: ('val', v) for once(v), ('map', callable, inner alternative),
+        ('elem', source) for an element of an opaque source; chain concatenates.  None when there is nothing to gain."""
+        x = strip_upd(v)
+        if depth > 6 or x[0] not in ('call', 'pcall'):
+            return [('elem', x)]
+        n = x[1]
+        if re.search(r'(IntoIterator>?::into_iter|Iterator::(by_ref|fuse|peekable))$', n) and len(x[2]) == 1:
+            return self._iter_items(x[2][0], depth + 1)
+        if n.endswith('iter::once') and len(x[2]) == 1:
+            return [('val', x[2][0])]
+        if n.endswith('Iterator::chain') and len(x[2]) == 2:
+            return self._iter_items(x[2][0], depth + 1) + self._iter_items(x[2][1], depth + 1)
+        if n.endswith('Iterator::map') and len(x[2]) == 2:
+            cal = self._callable(x[2][1])
+            if cal is not None and cal[0] in ('closure', 'fnitem'):
+                return [('map', cal, alt) for alt in self._iter_items(x[2][0], depth + 1)]
+        return [('elem', x)]
+
+    def chain_next(self, st, fr, b, t, cont):
+        """`for item in once(a).chain(xs.iter().map(f))`: next() of a std::iter::Chain whose parts are known yields either the
+        once-value, or f(element) for an element of the mapped source (trusting std Chain / Once / Map): one path per kind of
+        item, so the loop body sees what each kind of item is made of."""
+        from facts import callee_name
+        if not self.inline or t.get('target') is None or fr is not self.top:
+            return False
+        name = callee_name(t)
+        if not re.match(r'^<std::iter::Chain<A, B> as std::iter::Iterator>::next$', name) or len(t['args']) != 1:
+            return False
+        a0 = strip_upd(self.operand(st, fr, t['args'][0]))
+        if not (a0[0] == 'ref' and a0[1][0][0] == 'loc' and a0[1][1] == ()):
+            return False
+        loc_id = a0[1][0][2]
+        src = None
+        for e in reversed(st.path.events):
+            if e['k'] == 'loophead' and loc_id in e.get('pre', {}):
+                src = e['pre'][loc_id]
+                break
+        if src is None:
+            return False
+        alts = self._iter_items(src)
+        if len(alts) < 2 or all(a[0] == 'elem' for a in alts):
+            return False
+        ret = self.do_call(st, fr, b, t)
+        dest, target = t['dest'], t['target']
+        s_none = st.fork()
+        for (s_, cond) in ((s_none, ('eq', 0)), (st, ('eq', 1))):
+            dvv = ('discr', ret)
+            s_.path.conds.append((dvv, cond))
+            s_.path.events.append({'k': 'branch', 'val': dvv, 'cond': cond, 'bb': b, 'line': t['line'], 'depth': fr.evdepth})
+        self.store(s_none, self.loc_of(s_none, fr, dest), ('agg', 'adt', 'None', (), (), 'std::option::Option'))
+        self._run(s_none, target, fr, cont)
+
+        def some(s3, payload):
+            self.store(s3, self.loc_of(s3, fr, dest), ('agg', 'adt', 'Some', ('0',), (payload,), 'std::option::Option'))
+            self._run(s3, target, fr, cont)
+
+        def produce(s3, alt, k):
+            if alt[0] == 'val':
+                k(s3, alt[1])
+            elif alt[0] == 'elem':
+                k(s3, ('field', ('variant', ('pcall', 'std::iter::Iterator::next', (alt[1],), 0), 'Some'), '0'))
+            else:
+                produce(s3, alt[2], lambda s4, inner: self._apply(s4, fr, b, t, alt[1], (inner,), k))
+
+        for i, alt in enumerate(alts):
+            s_i = st.fork() if i < len(alts) - 1 else st
+            s_i.path.events.append({'k': 'item', 'of': name, 'alt': i, 'kind': alt[0], 'bb': b, 'line': t['line'], 'depth': fr.evdepth})
+            produce(s_i, alt, some)
+        return True
+
     def option_try(self, st, fr, t):
         """`opt?`: <Option<T> as Try>::branch(opt) -> the option value, else None"""
         from facts import callee_name
@@ -1288,6 +1359,8 @@ class Explorer:
                 self.record_assert(st, fr, b, t)
                 b = t['target']
             elif k == 'call' and self.filter_next(st, fr, b, t, cont):
+                return
+            elif k == 'call' and self.chain_next(st, fr, b, t, cont):
                 return
             elif k == 'call' and self.std_model(st, fr, b, t, cont):
                 return
